@@ -61,6 +61,23 @@ def main():
         mod.shard(ctx)
     except common.Inconclusive as e:
         ctx.inconc(str(e))
+    except Exception as e:
+        # An exception raised BY THE LIBRARY (innermost frame inside the tree under test) that reaches the harness outside
+        # any of its own traps means a call the workload makes on every run did not return: the property's observation
+        # could not even be made.  That is reported as a violation with the traceback; an exception raised by harness
+        # code itself is a harness crash (re-raised: the runner turns it into 'inconclusive').
+        import traceback
+        tb = e.__traceback__
+        while tb.tb_next is not None:
+            tb = tb.tb_next
+        fn = tb.tb_frame.f_code.co_filename
+        if not fn.startswith(common.REPO + os.sep):
+            raise
+        text = traceback.format_exc()
+        ctx.violation("library-raised:%s@%s:%s" % (type(e).__name__, os.path.basename(fn), tb.tb_frame.f_code.co_name),
+                      {"library_exception": True, "traceback": text[-3000:]},
+                      "%s: %s escaped the library during the workload (shard %d); the rest of this shard did not run" % (
+                          type(e).__name__, str(e)[:200], ctx.i))
     except Stalled:
         import traceback
         ctx.inconc("shard %d made no progress for %d s (wall-clock watchdog): %s" % (ctx.i, getattr(mod, "STALL_S", 150), traceback.format_exc(limit=-4)[-400:]))
